@@ -84,7 +84,11 @@ def var_spec(draw, allow_ctx: bool = True, rich: bool = False):
 def sweep_spec(draw, wrapped: str, rich: bool = False):
     base = M.LIB[wrapped]
     nvars = draw(st.sampled_from([1, 1, 2, 2, 3] if rich else [1, 1, 2]))
-    names = draw(st.permutations(["t", "s", "r"]))[:nvars]
+    names = list(draw(st.permutations(["t", "s", "r"]))[:nvars])
+    if rich:  # user-chosen names that coincide with keys the framework uses inside its own metadata blocks
+        odd = draw(st.sampled_from([None] * 6 + ["expr", "preprocessor_view", "sig", "values"]))
+        if odd:
+            names[0] = odd
     vars_: Dict[str, Any] = {}
     used_ctx = set()
     for n in names:
